@@ -25,22 +25,39 @@ Definition TGood (w : tworld) : Prop := Good (tE w) ∧ Good (tS w) ∧ Good (tF
 Notation tstep_ok := (tstep false false false true true true).
 Notation trun_ok := (trun false false false true true true).
 
-Lemma tapply_good w a b c tops : TGood w → TGood (tapply false false false true true true w a b c tops).
+Lemma tapply_good w a b c tops order : TGood w → TGood (tapply false false false true true true w a b c tops order).
 Proof. intros (H1 & H2 & H3). split; [|split]; simpl; by apply good_run. Qed.
 
-Lemma tparts_good mk w t : TGood w → TGood (tparts false false false true true true mk w t).
-Proof. intros H. unfold tparts. destruct (ttops w !! t); [by apply tapply_good|done]. Qed.
+Lemma tparts_good mk w top tops order : TGood w → TGood (tparts false false false true true true mk w top tops order).
+Proof. intros H. by apply tapply_good. Qed.
+
+Lemma tcreate_good w m ent sds listed : TGood w → TGood (tcreate false false false true true true w m ent sds listed).
+Proof.
+  intros H. unfold tcreate. destruct (new_solids _ _ _ _) as [[eS eF] parts].
+  destruct (tnew _ _) as [tops order]. by apply tapply_good.
+Qed.
+
+Lemma tcopy_good w t m d ex : TGood w → TGood (tcopy false false false true true true w t m d ex).
+Proof.
+  intros H. unfold tcopy. destruct (ttops w !! t) as [top|]; [|done].
+  destruct (copy_solids _ _ _ _ _ _ _) as [[eS eF] parts]. destruct (tnew _ _) as [tops order]. by apply tapply_good.
+Qed.
+
+Lemma fold_tcopy_good m ts : ∀ w, TGood w →
+  TGood (fold_left (λ w t, tcopy false false false true true true w t m (-1) true) ts w).
+Proof. induction ts as [|t ts IH]; intros w H; simpl; [done|]. apply IH. by apply tcopy_good. Qed.
 
 Lemma tstep_good w e : TGood w → TGood (tstep_ok w e).
 Proof.
-  intros H. destruct e as [m d sds|m sd|t m d ex|t|t|t]; cbn [tstep].
-  - destruct (new_solids _ _ _ _) as [[eS eF] parts]. by apply tapply_good.
-  - destruct (new_solids _ _ _ _) as [[eS eF] parts]. by apply tapply_good.
-  - destruct (ttops w !! t) as [top|]; [|done].
-    destruct (copy_solids _ _ _ _ _ _ _) as [[eS eF] parts]. by apply tapply_good.
-  - by apply tparts_good.
-  - by apply tparts_good.
-  - by apply tparts_good.
+  intros H. destruct e as [m d sds|m sd|t m d ex|t|t|t|m|s m]; cbn [tstep].
+  - by apply tcreate_good.
+  - by apply tcreate_good.
+  - by apply tcopy_good.
+  - destruct (ttops w !! t) as [top|]; [|done]. destruct (tt_listed top); [by apply tparts_good|done].
+  - destruct (ttops w !! t) as [top|]; [|done]. destruct (tt_listed top); [done|by apply tparts_good].
+  - destruct (ttops w !! t) as [top|]; [|done]. destruct (tt_listed top); [done|by apply tparts_good].
+  - by apply tcreate_good.
+  - destruct (decide (s = m)); [done|]. by apply fold_tcopy_good.
 Qed.
 
 Lemma trun_good es : TGood (trun_ok es).
@@ -72,5 +89,24 @@ Proof. vm_compute. done. Qed.
 Example nested_copy_history_ok :
   let w := trun_ok nested_copy_history in
   live_ids_in 1 (tE w) = [1] ∧ live_ids_in 1 (tS w) = [1; 2; 3] ∧ live_ids_in 1 (tF w) = [1; 2; 3] ∧
-  ttops w !! 3%nat = Some {| tt_ent := Some 1%nat; tt_solids := [(3%nat, [3%nat])] |}.
+  ttops w !! 3%nat = Some {| tt_ent := Some 1%nat; tt_solids := [(3%nat, [3%nat])]; tt_home := 1%nat; tt_listed := true |}.
+Proof. vm_compute. done. Qed.
+
+(** [collapse_one] is the fold of the copies of the source map's listed world brushes, then entities. *)
+Lemma tcollapse_is_copies r1 r2 r3 c1 c2 c3 w s m : s ≠ m →
+  tstep r1 r2 r3 c1 c2 c3 w (TCollapse s m) =
+  fold_left (tstep r1 r2 r3 c1 c2 c3) ((λ t, TCopy t m (-1) true) <$> (tlisted_of w s false ++ tlisted_of w s true)) w.
+Proof.
+  intros Hn. cbn [tstep]. destruct (decide (s = m)); [done|].
+  generalize (tlisted_of w s false ++ tlisted_of w s true). intros l. revert w.
+  induction l as [|t l IH]; intros w; simpl; [done|]. apply IH.
+Qed.
+
+(** A removed object is not collapsed, a re-added one goes to the end of its map's list: map 0 holds brush A, an
+    entity, brush B; A is removed and re-added; the collapse into map 1 copies B, A, then the entity. *)
+Example collapse_order :
+  let w := trun_ok [TCreateSpawn 0; TCreateSpawn 1; TCreateBrush 0 (7, [-1]); TCreateEnt 0 (-1) [];
+                    TCreateBrush 0 (9, [-1]); TRemove 2; TReAdd 2; TCollapse 0 1] in
+  torder w = [3; 4; 2; 5; 6; 7]%nat ∧ live_ids_in 1 (tS w) = [1; 2] ∧ live_ids_in 1 (tE w) = [1; 2] ∧
+  (tt_solids <$> ttops w !! 5%nat) = Some [(2%nat, [2%nat])] ∧ (tt_solids <$> ttops w !! 6%nat) = Some [(3%nat, [3%nat])].
 Proof. vm_compute. done. Qed.
